@@ -11,7 +11,7 @@ import (
 
 func init() {
 	register(&propDef{
-		ID: "C01", Level: "other", Run: withShared(runC01, share{"C02", runC02, ruleIs("layer-arith")}),
+		ID: "C01", Level: "other", Run: withShared(runC01, share{"C02", runC02, ruleIs("layer-arith")}, share{"C07", runC07, ruleIs("load-is-identity")}),
 		Explanation: "The bookkeeping identities of the chip accounts are shown inductive over every piece of code that can write a chip account (writers are discovered from the program's write sets, not listed): I1 InitialStackSize + Pot = Bankroll and I2 StackSize + Wager = InitialStackSize hold at the exit of every path of every writer whenever they hold at entry (path-partitioned affine dataflow; loop bodies analysed for a fresh element); on every in-round path the change of Status.CurrentRoundPot equals the change of the payer's Wager; the end-of-round sweep of wagers and the reset of the round pot always happen together with no event emitted in between; settlement's Final and Changed always move by the same amount and start from the player's own Bankroll; the pot builder is fed Pot+Wager, Idx and Fold of every player and its result is what gets published; no caller-supplied amount reaches the chip mover negative (shared with C12). A handler that republishes the pots does so on every non-failing path; the layers the pots are cut from are built in the nested side-pot shape (rule shared with C02); the winner shares of a level add up to its total. Does NOT decide non-negativity in general, that pots add up to the contributions, zero-sum of the result, or loss bounds: those are arithmetic over loops in pot/ and settlement/.",
 		Trusted:     commonTrusted,
 		Assumptions: []string{"distinct *PlayerState objects do not alias (each player has its own state object)", "alias player.state == Player.State()"},
